@@ -136,6 +136,7 @@ func c01RoundTrip(c *fw.Case, t *pdus.Type, force, class int) {
 		}
 	}
 	c.Sample(2, map[string]any{"type": t.Key(), "values": pdus.Describe(t, v), "image": hx(img)})
+	echoCodec(c, t, v, img)
 }
 
 type oversizeCase struct {
